@@ -12,6 +12,7 @@ import (
 	"encoding/json"
 	"errors"
 	"fmt"
+	"runtime/debug"
 	"strings"
 	"sync"
 	"testing"
@@ -361,6 +362,7 @@ func TestWorker(t *testing.T) {
 	if vk.WorkerKind() != "c05" {
 		t.Skip("not a worker")
 	}
+	debug.SetMaxStack(96 << 20) // a runaway recursion (cyclic struct printing, C02's finding) dies quickly
 	vk.Serve(func(req json.RawMessage) any {
 		var c Case
 		if err := json.Unmarshal(req, &c); err != nil {
@@ -389,6 +391,12 @@ func checkScenario(c Case) error {
 		if errors.As(err, &d) {
 			if d.Kind == "timeout" {
 				vk.S.Timeout()
+				return nil
+			}
+			if d.Kind == "stack-overflow" {
+				// str() of a struct that is part of a cycle recurses without bound: a catalogued C02 finding, not a race
+				vk.S.Class("excluded:cyclic-struct-stack-overflow")
+				vk.S.Discard()
 				return nil
 			}
 			if strings.Contains(d.Detail, "DATA RACE") {
@@ -430,7 +438,7 @@ var subScenario = vk.Register("scenario", checkScenario)
 
 func TestPropScenarios(t *testing.T) {
 	defer worker.Recycle()
-	vk.Rapid(t, subScenario, vk.N(60, 600), genCase)
+	vk.Rapid(t, subScenario, vk.N(200, 1500), genCase)
 }
 
 func TestReplay(t *testing.T) {
